@@ -13,9 +13,19 @@ from units import BLOCK
 ID = 'C07'
 LEVEL = 'translation_validation'
 B = BLOCK['C07']
-U_CHECK, U_INV, U_FEAS, U_AUG, U_ADJ = B, B + 1, B + 2, B + 3, B + 4
+U_CHECK, U_INV, U_FEAS, U_AUG, U_ADJ, U_LOOP = B, B + 1, B + 2, B + 3, B + 4, B + 5
+LOOP_FUEL = 600
+# The property allows several outputs when cells tie (any valid seat matrix); the whole-loop model fixes ONE of them - the one the
+# present code computes.  A different valid choice is not a violation of C07, so a lost tie is counted (coverage.model_vs_impl_
+# disagreements, notes) while the output itself is judged by the verified checker.  Set True when the claim is raised to level
+# 'proof' (then the theorem must speak about the code on every explored input, and a lost tie fails the check).
+LOOP_TIE_STRICT = False
 TIE = {'proportional.BiproportionalEvaluator.evaluate': 'per-output validation by the proved-sound certificate checker (cert_ok) '
                                                         'and, on refusals, by the verified feasibility reference',
+       'whole evaluate <-> Model/BipropLoop.v (the function of the partial-correctness theorems C07_evaluate_[total_]partial_correct)':
+           'correspondence on every explored instance: outcome (returned matrix / kind of refusal or crash), final multipliers and the '
+           'state at the top of every iteration (verif hook trace); the iteration order of the district frozenset is observed from '
+           'outside (instance attribute shadowing _districts_unsat) and handed to the model, whose theorem holds for every order',
        'multipliers': 'verif hook (final district_coefs / party_coefs); an exact solver in the harness when the hook is absent or its '
                       'multipliers do not certify the result',
        'proportional.BiproportionalEvaluator._augment_result / _adj_coef': 'correspondence with Model/Biprop.v augment / adj_coef',
@@ -30,12 +40,19 @@ RULE = ('corpus; exhaustive 2x2 matrices with votes 0..2, 1..3 seats, both divis
         'is left out. Instances whose party or district apportionment is tied are outside the quantifier and only counted. '
         'non-trivial = at least one transfer or multiplier update happened (trace longer than one state) or the call was refused; '
         'distinct by case hash')
-PARTIAL = ['termination of tie-and-transfer for all inputs is not proved: observed under a wall-clock bound per instance (exploration)',
+PARTIAL = ['termination of tie-and-transfer for all inputs is not proved (C07_termination_full_statement): observed under a wall-clock '
+           'bound per instance (exploration); proved: partial correctness of the whole-loop model for all inputs and the transfer bound '
+           'flaw/2 (C07_transfer_progress); the number of consecutive multiplier updates is not bounded',
+           'whole-loop model = code only as far as the correspondence stream explored; a code change that picks another valid output '
+           'where cells tie loses the tie without violating C07: counted (model_vs_impl_disagreements), judged by the checker '
+           '(LOOP_TIE_STRICT makes it fail the check)',
            '"refuses only when no seat matrix exists" is decided per instance (verified cut / matrix certificates), not for all inputs',
            'the row <-> HighestAverages model equality is stated (C07_row_is_highest_averages_full_statement) and proved in its '
            'declarative min-max form (C07_row_divisor_apportionment) only',
-           '_labeled (the labelling search) is not modelled: the transfer path is an oracle in C07_augment_inv']
-TRUSTED = ['the verif hook in BiproportionalEvaluator.evaluate (records copies of result / district_coefs / party_coefs; add-only)',
+           'C07_augment_inv treats the transfer path as an oracle; the whole-loop theorems compute it (labeled + walk)']
+TRUSTED = ['observation of the district iteration order: run_impl shadows the static method _districts_unsat on the evaluator instance '
+           '(library untouched) and rebuilds frozenset(cur) | frozenset(tgt) from the very arguments',
+           'the verif hook in BiproportionalEvaluator.evaluate (records copies of result / district_coefs / party_coefs; add-only)',
            'harness-side exact solver for multipliers (untrusted: its output is only a certificate for cert_ok)']
 ASSUMPTIONS = ['a wall-clock limit stands in for termination', 'votes are non-negative integers, at least one of them positive']
 EXTRA_PROOF_FILES = []
@@ -110,9 +127,26 @@ def district_target(c):
     return 'same'
 
 
-def run_impl(c):
+def run_impl(c, hold=None):
+    """hold (a dict) survives an exception: the evaluator (its hook trace) and the iteration orders of the district set that
+    _districts_unsat walks - observed from outside by shadowing the static method on the instance, the library is untouched"""
     import votelib.evaluate.proportional as prop
     ev = prop.BiproportionalEvaluator(DIV[c['div']], apportioner=apportioner_of(c))
+    if hold is not None:
+        hold['ev'] = ev
+        hold['orders'] = []
+        hold['tgt'] = None
+        orig = ev._districts_unsat
+
+        def watched(cur, tgt):
+            under, over = orig(cur, tgt)
+            order = list(frozenset(cur) | frozenset(tgt))      # the same objects, the same construction: the same order
+            hold['orders'].append(order)
+            hold['tgt'] = tgt
+            if [x for x in order if x in over] != list(over):
+                hold['order_mismatch'] = True
+            return under, over
+        ev._districts_unsat = watched
     res = ev.evaluate(py_votes(c), n_seats_arg(c))
     return res, getattr(ev, '_verif_trace', None)
 
@@ -176,6 +210,67 @@ def outcome_sx(state):
     return '(0 %s %s %s)' % (sx(state[0]), sx(state[1]), sx(state[2]))
 
 
+# ---- the whole-loop model (Model/BipropLoop.v) against the implementation
+LOOP_CODE = {1: 'VSE', 2: 'ZERODIV', 3: 'KEY', 4: 'VALUE'}
+
+
+def loop_line(c, tgt, dorder):
+    """tgt: 'same' or [[d, k] ...] in the key order of tgt_district_seats"""
+    tm = '(0)' if tgt == 'same' else '(1 %s)' % sx(tgt)
+    n = c['n'] if c['seats'][0] != 'dict' else sum(k for _, k in c['seats'][1])
+    return '%d (%d %s %s %d %s %s %d)' % (U_LOOP, c['div'], sx(QCONST[c['div']]), votes_sx(c), n, tm, sx(dorder), LOOP_FUEL)
+
+
+def canon_state(res, rho, gam):
+    return (tuple(sorted((d, p, s) for d, row in res for p, s in row if s)),
+            tuple(sorted((d, Fraction(v)) for d, v in rho)), tuple(sorted((p, Fraction(v)) for p, v in gam)))
+
+
+def canon_impl_state(st):
+    res, rho, gam = st
+    return canon_state(enc_mat(res), [[dnum(d), Fraction(v)] for d, v in rho.items()], [[cnum(p), Fraction(v)] for p, v in gam.items()])
+
+
+def canon_model_state(v):
+    return canon_state(v[0], [[d, common.unq(x)] for d, x in v[1]], [[p, common.unq(x)] for p, x in v[2]])
+
+
+def compare_loop(r, trace, mo):
+    """None when the whole-loop model and the implementation agree (outcome, final multipliers, every iteration state);
+    'skip:<why>' when the case is outside the modelled domain; 'soft:<why>' when the outcome (returned matrix / kind of
+    refusal) agrees and only ghost states differ; else the reason why the outcome differs"""
+    v = common.parse_sx(mo)
+    if v[0] != 0:
+        return 'model unit rejected its input: %s' % mo[:200]
+    code, payload, mtrace = v[1]
+    if code in (10, 11):
+        return 'skip:%s apportionment tied (model)' % ('party' if code == 10 else 'district')
+    itrace = [canon_impl_state(st) for st in (trace or [])]
+    mtr = [canon_model_state(st) for st in mtrace]
+    if code == 99 and len(itrace) >= LOOP_FUEL:
+        return 'skip:more iterations than the model fuel'
+    if r[0] == 'ok':
+        if code != 0:
+            return 'implementation returns a matrix, the whole-loop model ends with code %d' % code
+        if canon_state(enc_mat(r[1][0]), [], [])[0] != canon_model_state(payload)[0]:
+            return 'returned matrix differs from the whole-loop model'
+    else:
+        if LOOP_CODE.get(code) is None or common.E[LOOP_CODE[code]] != r[1]:
+            return 'implementation raises %s, the whole-loop model ends with code %d' % (r[2], code)
+    # the outcome agrees; the multipliers and the states on the way are ghost output: a difference there does not touch the
+    # property (the theorem certifies the model's matrix, which IS the returned one) - it is counted, not reported
+    if trace is not None:
+        if len(itrace) != len(mtr):
+            return 'soft:the implementation runs %d iterations, the whole-loop model %d' % (len(itrace), len(mtr))
+        for k, (a, b) in enumerate(zip(itrace, mtr)):
+            if a != b:
+                what = [n for n, x, y in zip(('seat matrix', 'district multipliers', 'party multipliers'), a, b) if x != y]
+                return 'soft:iteration %d: %s differ from the whole-loop model' % (k, ', '.join(what))
+        if r[0] == 'ok' and mtr and canon_model_state(payload) != mtr[-1]:
+            return 'model: final state is not the last trace state'
+    return None
+
+
 BITS = ['district totals', 'party totals', 'no seat without votes / non-negative cells', 'positive multipliers',
         'every cell a divisor-rule rounding of votes x multipliers']
 
@@ -198,15 +293,18 @@ def judge(ctx, stream, cases, limit):
                 tot[k] += ctx.streams[stream][k]
         ctx.streams[stream] = tot
         return
-    runs = []
+    runs, holds = [], []
     for c in cases:
         ctx.evaluations += 1
         ctx.dist['stream:' + stream] += 1
         tgt = district_target(c)
-        r = common.call_impl(lambda: run_impl(c), limit)
+        h = {}
+        r = common.call_impl(lambda: run_impl(c, h), limit)
         if r[0] == 'err' and r[1] == common.E['TIMEOUT']:
-            r = common.call_impl(lambda: run_impl(c), 3 * limit)      # once more, generously (loaded machine)
+            h = {}
+            r = common.call_impl(lambda: run_impl(c, h), 3 * limit)      # once more, generously (loaded machine)
         runs.append((c, tgt, r))
+        holds.append(h)
     lines, idx = [], []
     for k, (c, tgt, r) in enumerate(runs):
         if tgt is None:
@@ -319,6 +417,7 @@ def judge(ctx, stream, cases, limit):
                 ctx.report(stream, c, ok(enc_mat(r[1][0])), mo,
                            'no positive multipliers make every cell a divisor-rule rounding (neither the implementation\'s nor any: '
                            'the signpost inequalities contain a contradictory cycle)', known_class)
+    nd += judge_loop(ctx, stream, runs, holds)
     # per-iteration state invariant on a sample (proof-level support: reported, not a verdict)
     inv_lines, inv_idx = [], []
     for (k, kind), mo in zip(idx, outs):
@@ -337,6 +436,61 @@ def judge(ctx, stream, cases, limit):
         if v[0] != 0 or not v[1][4]:
             ctx.dist['iteration states breaking the invariant'] += 1
     ctx.streams[stream] = dict(cases=len(runs), deviations=nd)
+
+
+def judge_loop(ctx, stream, runs, holds):
+    """correspondence of the whole-loop model (Model/BipropLoop.v: the function the partial-correctness theorem is about)
+    with BiproportionalEvaluator.evaluate: outcome, final multipliers and the state at the top of every iteration"""
+    import votelib.evaluate.core as core
+    lines, idx = [], []
+    for k, ((c, tgt, r), h) in enumerate(zip(runs, holds)):
+        if tgt is None or (r[0] == 'err' and r[1] == common.E['TIMEOUT']):
+            ctx.dist['loop: not compared (district apportionment unusable / time-out)'] += 1
+            continue
+        if h.get('order_mismatch'):
+            ctx.broken('harness', 'the district order observed around _districts_unsat does not explain its answer')
+            continue
+        seen = h.get('tgt')
+        if seen is not None and any(isinstance(x, core.Tie) for x in seen):
+            ctx.dist['loop: not compared (district apportionment tied)'] += 1
+            continue
+        if tgt == 'same':
+            tg = 'same'
+        elif seen is not None:
+            tg = [[dnum(x), v] for x, v in seen.items()]
+        else:
+            tg = tgt
+        dorder = [dnum(x) for x in h['orders'][0]] if h.get('orders') else [x for x, _ in c['votes']]
+        lines.append(loop_line(c, tg, dorder))
+        idx.append(k)
+    nd = 0
+    for k, line, mo in zip(idx, lines, common.run_model(lines)):
+        c, tgt, r = runs[k]
+        ev = holds[k].get('ev')
+        trace = getattr(ev, '_verif_trace', None) if ev is not None else None
+        why = compare_loop(r, trace, mo)
+        if why is None:
+            ctx.dist['loop: agrees (outcome, multipliers, every iteration state)'] += 1
+            n_it = len(trace) if trace else 0
+            ctx.dist['loop iterations:%s' % (n_it if n_it < 6 else '6-20' if n_it <= 20 else '21+')] += 1
+            if r[0] != 'ok':
+                ctx.dist['loop: refusal / error reproduced by the model'] += 1
+        elif why.startswith('skip:'):
+            ctx.dist['loop: not compared (%s)' % why[5:]] += 1
+        elif why.startswith('soft:'):
+            ctx.dist['loop: outcome agrees, the path differs (ghost states; counted, not a verdict)'] += 1
+            if sum(1 for x in ctx.notes if x.startswith('whole-loop model')) < 3:
+                ctx.notes.append('whole-loop model: same outcome, different path - %s: %s' % (why[5:], json.dumps(c)[:300]))
+        else:
+            ctx.disagreements += 1
+            ctx.dist['loop: OUTCOME differs from the model (tie lost on this case)'] += 1
+            if LOOP_TIE_STRICT:
+                nd += 1
+                io = ok(enc_mat(r[1][0])) if r[0] == 'ok' else common.err(r[1])
+                ctx.report(stream + '/whole-loop', dict(c, _class='loop-model'), io, mo[:2000], 'whole-loop model: ' + why, known_class)
+            elif sum(1 for x in ctx.notes if x.startswith('whole-loop model: tie lost')) < 3:
+                ctx.notes.append('whole-loop model: tie lost - %s (the output itself is judged by the checker): %s' % (why, json.dumps(c)[:300]))
+    return nd
 
 
 def known_class(c, io, mo):
